@@ -50,6 +50,18 @@ class M(Model):
     def _on_target(s):
         return int(((np.asarray(s.variable_grid) == BOX) & (np.asarray(s.fixed_grid) == TARGET)).sum())
 
+    def early_end_explained(self, states, actions):
+        """C11: the only documented reason for a LAST before the time limit is a solved level (all four boxes on
+        targets)."""
+        return self._on_target(states[-1]) == NBOX
+
+    @staticmethod
+    def early_end_explained_jnp(s):
+        """device-side twin of early_end_explained for the bulk sweeps (candidates only; the host predicate decides)"""
+        import jax.numpy as jnp
+
+        return jnp.sum((s.variable_grid == BOX) & (s.fixed_grid == TARGET)) == NBOX
+
     def _move(self, s, a):
         """-> None if the action has no effect by the rules, else (new agent cell, pushed box
         destination or None)."""
